@@ -47,9 +47,22 @@ pub fn character_string_value(input: Input<'_>) -> ParserResult<'_, ASN1Value> {
 /// line in the "cstring" have no significance.
 pub fn cstring(input: Input<'_>) -> ParserResult<'_, String> {
     map(raw_string_literal, |s| {
+        // A line break and the spacing characters around it are not part of the string
+        let mut lines = s.split(['\n', '\r', '\u{0B}', '\u{0C}']).peekable();
+        let mut joined = String::with_capacity(s.len());
+        let mut first = true;
+        while let Some(mut line) = lines.next() {
+            if !first {
+                line = line.trim_start_matches([' ', '\t']);
+            }
+            if lines.peek().is_some() {
+                line = line.trim_end_matches([' ', '\t']);
+            }
+            joined.push_str(line);
+            first = false;
+        }
         // Replace any escaped quote with a single `"`
-        // TODO: Remove whitespace around newlines in multiline strings.
-        s.replace("\"\"", "\"")
+        joined.replace("\"\"", "\"")
     })
     .parse(input)
 }
